@@ -362,7 +362,9 @@ func (fx *fixture) finishVoteCase(kind string, st *cstate, why string) *fcase {
 
 func (fx *fixture) voteCase(name string) []*fcase {
 	f := vforgers[name]
-	st := fx.newState(0)
+	// which honest votes stay: the heaviest set below the quorum (boring), a seeded removal
+	// order, or none at all
+	st := fx.newState([]int{0, 1, 3}[fx.r.C.Weighted("kept-votes", []int{3, 1, 1})])
 	need := fx.Q - st.claimed()
 	if !f.make(fx, st, need) {
 		return nil
@@ -394,7 +396,6 @@ func (fx *fixture) comboCase() []*fcase {
 		return nil
 	}
 	c := fx.finishVoteCase("combo", st, fmt.Sprintf("[%s+%s] honest votes removed until legitimate weight below quorum %d (removed %s), compensated with two classes", na, nb, fx.Q, names(st.removed)))
-	c.why = fmt.Sprintf("[%s+%s] ", na, nb) + c.why
 	return []*fcase{c}
 }
 
@@ -441,6 +442,23 @@ func (fx *fixture) aggregateCases(which string) []*fcase {
 			sigs = append(sigs, e)
 		}
 		return []*fcase{fx.sameHashCase(which, idx, mark(all, nil, "other-msg"), aggregate(sigs), false, "every honest vote is listed, the aggregate is made of the same signers' signatures for another block hash")}
+	case "lone-vote-bad-signature":
+		// a single voter whose weight alone reaches the quorum (stake concentration), listed
+		// alone, with a signature that is not over this header
+		var lone *entry
+		for i := range all {
+			if uint64(all[i].w) >= fx.Q && (lone == nil || all[i].w > lone.w) {
+				lone = &all[i]
+			}
+		}
+		if lone == nil {
+			return nil
+		}
+		other := crypto.Keccak256Hash(fx.honest.Hash().Bytes(), []byte("competing proposal"))
+		e := *lone
+		e.sig = e.v.key.BlsSk.Sign(chainkit.VotePayload(other, fx.N, idx))
+		e.legit, e.tag = false, "other-msg"
+		return []*fcase{fx.sameHashCase(which, idx, []entry{e}, aggregate([]entry{e}), false, fmt.Sprintf("the single vote of %s (weight %d >= quorum %d) is listed alone; the signature field is its signature for another block hash", e.v.name(), e.w, fx.Q))}
 	case "votes-in-house-section":
 		es := mark(all, nil, "house-section")
 		c := fx.sameHashCase(which, idx, es, aggregate(all), true, "the honest quorum is listed under HouseCommitters/MCAggrSig, ChamberCommitters is empty")
